@@ -95,6 +95,7 @@ type valDom struct {
 	lo, hi         int
 	minIdx, maxIdx int
 	minV, maxV     float64 // smallest / largest value that is tracked in a bin
+	hint           []int   // bins worth probing on purpose (gen.HintIndexes), when they lie in the window
 }
 
 func newDomain(m mapping.IndexMapping) valDom {
@@ -127,7 +128,14 @@ func drawDomain(t *rapid.T, m mapping.IndexMapping, maxWidth int) valDom {
 		w = full
 	}
 	var c int
-	switch rapid.IntRange(0, 6).Draw(t, "centre") {
+	hints := gen.HintIndexes(m)
+	centreClass := rapid.IntRange(0, 6).Draw(t, "centre")
+	if len(hints) > 0 && hints[len(hints)-1] > d.minIdx && hints[len(hints)-1] < d.maxIdx && rapid.Bool().Draw(t, "centreonhint") {
+		centreClass = 7
+	}
+	switch centreClass {
+	case 7:
+		c = hints[len(hints)-1]
 	case 0, 1:
 		c = m.Index(1)
 	case 2:
@@ -149,6 +157,11 @@ func drawDomain(t *rapid.T, m mapping.IndexMapping, maxWidth int) valDom {
 	}
 	if d.lo < d.minIdx {
 		d.lo = d.minIdx
+	}
+	for _, h := range hints {
+		if h >= d.lo && h <= d.hi {
+			d.hint = append(d.hint, h)
+		}
 	}
 	return d
 }
@@ -181,7 +194,13 @@ func (d valDom) upperBound(i int) float64 {
 // edge reports whether the value was placed within 4 ulps of a bin edge or a range end.
 func (d valDom) posValue(t *rapid.T) (v float64, edge bool) {
 	var i int
-	switch rapid.IntRange(0, 4).Draw(t, "idxclass") {
+	idxClass := rapid.IntRange(0, 4).Draw(t, "idxclass")
+	if len(d.hint) > 0 && rapid.IntRange(0, 2).Draw(t, "onhint") == 0 {
+		idxClass = 5
+	}
+	switch idxClass {
+	case 5:
+		i = d.hint[rapid.IntRange(0, len(d.hint)-1).Draw(t, "hintidx")]
 	case 0:
 		i = d.lo
 	case 1:
